@@ -284,6 +284,10 @@ def build(spec):
     c.userherm = spec.get("userherm", None if rng.random() < 0.7 else herm)
     if c.stream == "sparse":
         c.nmodes = spec.get("nmodes", [None, 1, 2, 3, 4][int(rng.integers(0, 5))])
+        if c.nmodes == "max":
+            # the largest admissible request: real symmetric Lanczos (`eigsh`) admits k <= n-1; Arnoldi (`eigs`, to which scipy's
+            # `eigsh` also hands every COMPLEX Hermitian problem) admits k <= n-2 and raises TypeError beyond (scipy's contract)
+            c.nmodes = n - 1 if (herm and not cplx) else n - 2
         if c.nmodes is None and n <= 8:
             c.nmodes = 3
         with np.errstate(all="ignore"):
@@ -822,6 +826,14 @@ def specs(ctx):
                         for _ in range(reps):
                             out.append({"stream": "sparse", "seed": seed(), "cplx": cplx, "herm": herm, "gen": gen, "sigmakind": sk,
                                         "indef": indef})
+    # boundary: the largest admissible number of requested modes (n-1 Hermitian, n-2 general), standard and generalised
+    for cplx in (False, True):
+        for herm in (False, True):
+            for gen in (False, True):
+                for sk in ("none", "inside"):
+                    for _ in range(reps):
+                        out.append({"stream": "sparse", "seed": seed(), "cplx": cplx, "herm": herm, "gen": gen, "sigmakind": sk,
+                                    "nmodes": "max", "n": R.choice([8, 9, 11])})
     for _ in range(8 if ctx.quick else 80):
         out.append({"stream": "sparse", "seed": seed(), "fe": True})
     # free-free structures: singular K (rigid-body modes), positive definite M, negative shift
